@@ -28,3 +28,12 @@ Proofs/FilterEncProofs.vos Proofs/FilterEncProofs.vok Proofs/FilterEncProofs.req
 Props/C14.vo Props/C14.glob Props/C14.v.beautified Props/C14.required_vo: Props/C14.v Base/Bytes.vo Spec/FilterSpec.vo Gen/GenPaeth.vo Model/Filter.vo Proofs/PaethProofs.vo Proofs/FilterProofs.vo Proofs/FilterEncProofs.vo
 Props/C14.vio: Props/C14.v Base/Bytes.vio Spec/FilterSpec.vio Gen/GenPaeth.vio Model/Filter.vio Proofs/PaethProofs.vio Proofs/FilterProofs.vio Proofs/FilterEncProofs.vio
 Props/C14.vos Props/C14.vok Props/C14.required_vos: Props/C14.v Base/Bytes.vos Spec/FilterSpec.vos Gen/GenPaeth.vos Model/Filter.vos Proofs/PaethProofs.vos Proofs/FilterProofs.vos Proofs/FilterEncProofs.vos
+Spec/Adam7Spec.vo Spec/Adam7Spec.glob Spec/Adam7Spec.v.beautified Spec/Adam7Spec.required_vo: Spec/Adam7Spec.v Base/Bytes.vo
+Spec/Adam7Spec.vio: Spec/Adam7Spec.v Base/Bytes.vio
+Spec/Adam7Spec.vos Spec/Adam7Spec.vok Spec/Adam7Spec.required_vos: Spec/Adam7Spec.v Base/Bytes.vos
+Model/Adam7.vo Model/Adam7.glob Model/Adam7.v.beautified Model/Adam7.required_vo: Model/Adam7.v Base/Bytes.vo Spec/Adam7Spec.vo Gen/GenAdam7.vo
+Model/Adam7.vio: Model/Adam7.v Base/Bytes.vio Spec/Adam7Spec.vio Gen/GenAdam7.vio
+Model/Adam7.vos Model/Adam7.vok Model/Adam7.required_vos: Model/Adam7.v Base/Bytes.vos Spec/Adam7Spec.vos Gen/GenAdam7.vos
+Proofs/Adam7Proofs.vo Proofs/Adam7Proofs.glob Proofs/Adam7Proofs.v.beautified Proofs/Adam7Proofs.required_vo: Proofs/Adam7Proofs.v Base/Bytes.vo Spec/Adam7Spec.vo Gen/GenAdam7.vo Model/Adam7.vo
+Proofs/Adam7Proofs.vio: Proofs/Adam7Proofs.v Base/Bytes.vio Spec/Adam7Spec.vio Gen/GenAdam7.vio Model/Adam7.vio
+Proofs/Adam7Proofs.vos Proofs/Adam7Proofs.vok Proofs/Adam7Proofs.required_vos: Proofs/Adam7Proofs.v Base/Bytes.vos Spec/Adam7Spec.vos Gen/GenAdam7.vos Model/Adam7.vos
